@@ -7,6 +7,7 @@ import (
 	"encoding/json"
 	"errors"
 	"fmt"
+	"math/rand/v2"
 	"net/http"
 	"testing"
 	"time"
@@ -83,16 +84,50 @@ func TestC03(t *testing.T) {
 		default:
 			cc = genCheckCase(r, idx*3, nil)
 		}
+		if idx%24 == 7 {
+			cc = genWideTraverseCase(r)
+		}
 		run.begin(idx, "", cc)
 		verdict := runC03Case(run, idx, cc)
 		run.end(idx, "", verdict)
 	}
 }
 
+// genWideTraverseCase: a traversed relation with more rows than one listing page
+// (100) on one object, below a negation: `view = viewer && !parent.traverse(p =>
+// p.banned)`; the one or two parents that ban the subject sit anywhere in the
+// listing, so the listing of the second page is a storage call of its own.
+func genWideTraverseCase(r *rand.Rand) *checkCase {
+	cc := &checkCase{Variant: "wide-traverse"}
+	ut := []TypeRef{{NS: "User"}}
+	cc.Cfg = &Cfg{NS: []*NSDef{{Name: "User"},
+		{Name: "Folder", Rels: []*RelDef{{Name: "banned", Types: ut}}},
+		{Name: "Doc", Rels: []*RelDef{{Name: "viewer", Types: ut}, {Name: "parent", Types: []TypeRef{{NS: "Folder"}}},
+			{Name: "view", Perm: true, Rewrite: &Expr{Op: "and", Kids: []*Expr{{Op: "csr", Rel: "viewer"}, {Op: "not", Kids: []*Expr{{Op: "ttu", Rel: "parent", Comp: "banned"}}}}}}}}}}
+	n := 101 + r.IntN(80)
+	var ts []*Tup
+	for i := 0; i < n; i++ {
+		ts = append(ts, tupSet("Doc", "d", "parent", "Folder", fmt.Sprintf("f%d", i), ""))
+	}
+	for _, u := range []string{"alice", "bob", "carol"} {
+		ts = append(ts, tupID("Doc", "d", "viewer", u))
+	}
+	ts = append(ts, tupID("Folder", fmt.Sprintf("f%d", r.IntN(n)), "banned", "alice"))
+	ts = append(ts, tupID("Folder", fmt.Sprintf("f%d", r.IntN(n)), "banned", "carol"), tupID("Folder", fmt.Sprintf("f%d", r.IntN(n)), "banned", "carol"))
+	cc.tuples = ts
+	cc.queries = []*Tup{tupID("Doc", "d", "view", "alice"), tupID("Doc", "d", "view", "bob"), tupID("Doc", "d", "view", "carol")}
+	cc.Tuples = tupStrings(ts[:20])
+	cc.Queries = tupStrings(cc.queries)
+	return cc
+}
+
 func runC03Case(run *runner, idx int64, cc *checkCase) string {
 	verdict := "ok"
 	strict := idx%4 == 3 && cfgIsOPLRenderable(cc.Cfg)
 	opts := EnvOpts{MaxDepth: 8, MaxWidth: 100, Extra: map[string]any{"limit.max_batch_check_size": 64}}
+	if cc.Variant == "wide-traverse" {
+		opts.MaxWidth = 400
+	}
 	if idx%3 == 1 {
 		// entries of a batch are then checked one after the other, in request order
 		opts.Extra["limit.batch_check_max_parallelization"] = 1
@@ -148,50 +183,73 @@ func runC03Case(run *runner, idx int64, cc *checkCase) string {
 			run.count("too_many_calls_capped", 1)
 			N = maxN
 		}
+		judge := func(plan *faultPlan, k int64, opKind, fname, where string) {
+			d, res := engineCheckPlan(env, st, eng, q, 0, plan, 2*time.Second)
+			run.eval(1)
+			if st.faulted == 0 {
+				run.count("fault_position_not_reached", 1)
+				return
+			}
+			run.count("fault_reached:"+opKind, 1)
+			run.nontrivial(fmt.Sprintf("%d/%d/%s/%v", idx, qi, where, plan.Persistent))
+			sub := fmt.Sprintf("%s/q%d/%s/%v/%s", modeName, qi, where, plan.Persistent, fname)
+			detail := map[string]any{"query": q.String(), "position": where, "persistent": plan.Persistent, "fault": fname, "op": opKind, "fault_free": d0.String(), "result": d.String()}
+			if isNoDecision(d) && fname != "canceled" && fname != "deadline" {
+				run.count("timeout_no_decision", 1) // C15 decides non-termination
+				return
+			}
+			if res.Err != nil && res.Membership == checkgroup.IsMember {
+				report(fmt.Sprintf("C03:error-and-allowed:%s", opKind),
+					fmt.Sprintf("check %s with storage call %s (%s) failing returned BOTH an error and IsMember", q, where, opKind), sub, detail)
+				return
+			}
+			if d.Err != "" {
+				run.count("answered_error", 1)
+				return
+			}
+			if d.Allowed == d0.Allowed {
+				run.count("answered_same", 1)
+				return
+			}
+			dir := "denied-instead-of-error"
+			if d.Allowed {
+				dir = "ALLOWED-on-fault"
+			}
+			report(fmt.Sprintf("C03:%s:%s:%s", dir, opKind, exprOpsInCfgShort(cc.Cfg, d.Allowed)),
+				fmt.Sprintf("check %s: fault-free answer %s, with storage call %s (%s, %s, persistent=%v) failing the answer is %s (no error)", q, d0, where, opKind, fname, plan.Persistent, d), sub, detail)
+		}
 		for k := int64(1); k <= N; k++ {
 			for _, persistent := range []bool{false, true} {
 				fk := faultKinds[int(k+idx+int64(qi))%len(faultKinds)]
 				if persistent {
 					fk = faultKinds[int(k+idx+int64(qi)+2)%len(faultKinds)]
 				}
-				plan := &faultPlan{FailAt: k, Persistent: persistent, Err: fk.err}
-				d, res := engineCheckPlan(env, st, eng, q, 0, plan, 2*time.Second)
-				run.eval(1)
-				if st.faulted == 0 {
-					run.count("fault_position_not_reached", 1)
-					continue
-				}
 				opKind := "?"
 				if int(k) <= len(ops0) {
 					opKind = ops0[k-1]
 				}
-				run.count("fault_reached:"+opKind, 1)
-				run.nontrivial(fmt.Sprintf("%d/%d/%d/%v", idx, qi, k, persistent))
-				sub := fmt.Sprintf("%s/q%d/k%d/%v/%s", modeName, qi, k, persistent, fk.name)
-				detail := map[string]any{"query": q.String(), "k": k, "persistent": persistent, "fault": fk.name, "op": opKind, "fault_free": d0.String(), "result": d.String()}
-				if isNoDecision(d) && fk.name != "canceled" && fk.name != "deadline" {
-					run.count("timeout_no_decision", 1) // C15 decides non-termination
+				judge(&faultPlan{FailAt: k, Persistent: persistent, Err: fk.err}, k, opKind, fk.name, fmt.Sprintf("k%d", k))
+			}
+		}
+		// every KIND of storage operation at its first, second and last occurrence -
+		// also beyond the cap above (the second page of a listing comes after the
+		// sub-checks of the first hundred rows)
+		occ := map[string]int64{}
+		for _, o := range ops0 {
+			occ[o]++
+		}
+		for _, op := range []string{"Get", "TravExp", "TravRew", "Exists"} {
+			n := occ[op]
+			seenNth := map[int64]bool{}
+			for _, nth := range []int64{1, 2, n} {
+				if nth < 1 || nth > n || seenNth[nth] {
 					continue
 				}
-				if res.Err != nil && res.Membership == checkgroup.IsMember {
-					report(fmt.Sprintf("C03:error-and-allowed:%s", opKind),
-						fmt.Sprintf("check %s with storage call #%d (%s) failing returned BOTH an error and IsMember", q, k, opKind), sub, detail)
-					continue
+				seenNth[nth] = true
+				for _, persistent := range []bool{false, true} {
+					fk := faultKinds[int(nth+idx+int64(qi))%len(faultKinds)]
+					judge(&faultPlan{FailOp: op, FailOpNth: nth, Persistent: persistent, Err: fk.err}, 0, op, fk.name, fmt.Sprintf("%s#%d-of-%d", op, nth, n))
 				}
-				if d.Err != "" {
-					run.count("answered_error", 1)
-					continue
-				}
-				if d.Allowed == d0.Allowed {
-					run.count("answered_same", 1)
-					continue
-				}
-				dir := "denied-instead-of-error"
-				if d.Allowed {
-					dir = "ALLOWED-on-fault"
-				}
-				report(fmt.Sprintf("C03:%s:%s:%s", dir, opKind, exprOpsInCfgShort(cc.Cfg, d.Allowed)),
-					fmt.Sprintf("check %s: fault-free answer %s, with storage call #%d (%s, %s, persistent=%v) failing the answer is %s (no error)", q, d0, k, opKind, fk.name, persistent, d), sub, detail)
 			}
 		}
 	}
